@@ -557,7 +557,7 @@ class C04(InterleavedCheck):
                   "code-mirroring per-sample loop terminates and equals the per-update stream (batches of B, short last batch, drop_last remainder, "
                   "budget test after every update). Model tied to the code by differential correspondence each run.")
     level_note = ("trusted: Lean kernel + standard axioms; the correspondence harness; samplers are oracles yielding len(sampler) indices; "
-                  "exact counts proved for the updates and epochs budgets (updates_budget_exact, epochs_budget_exact); for the samples budget the stop rule is proved as 'stop iff the sample budget is reached after this update'")
+                  "exact stopping point proved for all three budget kinds (updates_budget_exact, epochs_budget_exact, samples_budget_exact) and batch sizes stream-wide (only_an_epochs_last_batch_is_short)")
     props_modules = ["KDVerif.Props.C04"]
 
     def view(self, case, ans):
